@@ -107,7 +107,7 @@ if 'C03' in CHECKS:
     CHECKS['C03']['kani'] = [dict(_s, mem_gb=max(_s.get('mem_gb', 14), 20)) for _s in CHECKS['C03'].get('kani', [])]
 
 if 'C20' in CHECKS:
-    CHECKS['C20']['jobs'] = {'quick': 6, 'thorough': 5}
+    CHECKS['C20']['jobs'] = {'quick': 8, 'thorough': 6}
     CHECKS['C20']['kani'] = [dict(_s, mem_gb=20) if _s['harness'].startswith('context_rules::') else _s for _s in CHECKS['C20'].get('kani', [])]
 
 # ---------------------------------------------------------------- quick-tier budget
